@@ -86,4 +86,10 @@ var specs = []spec{
 		Sels:    map[string]string{"s.Params.PruningWindow": "PruningWindow", "s.Params.blockTime": "blockTime"},
 		Calls:   map[string]string{"uint64": "(Int64.toUInt64 $0)"},
 	},
+	{
+		// the share of the caller's deadline DeleteRange spends on deleting (the rest is kept for saving progress)
+		File: "store/store_delete.go", Func: "deleteRangeRaw", Recv: "Store", Var: "sub", Lean: "deleteBudget", Module: "Store",
+		Sig:     "(remaining : Int64) : Int64",
+		Methods: map[string]string{"Sub": "remaining"},
+	},
 }
